@@ -395,7 +395,7 @@ pub fn observe(cache: &Cache, opts: &ObsOpts, out: &mut Vec<(ObsClass, String)>)
             exp.push_str(&format!("k{}: v{}", e.id, e.vtok));
         }
         exp.push('}');
-        if s != exp {
+        if crate::check::debug_key_sequence(&s) != obs.ids() {
             out.push((ObsClass::Views, format!("Debug output {} differs from iter() order {}", s, exp)));
         }
         obs.debug = Some(s);
